@@ -224,7 +224,19 @@ func genPayload(t *verifsim.Tape, d *spec.Design, m *spec.Method) any {
 			}
 		}
 		if sv, ok := obj[f.Name].(string); ok && isCatchAll(m, f.Name) {
-			obj[f.Name] = catchAllValue(sv)
+			sv = catchAllValue(sv)
+			if f.Val == nil && f.Type.Kind == spec.String {
+				// a rest-of-path value that starts or ends with a separator (an absolute file name, a directory)
+				switch t.Draw("catchall-edge", 8) {
+				case 0:
+					sv = "/" + sv
+				case 1:
+					sv += "/"
+				case 2:
+					sv = "/" + sv + "/"
+				}
+			}
+			obj[f.Name] = sv
 		} else if ok && loc == gen.LocPath && hasCatchAll(m) {
 			// the recorded defect (a '/' inside a {name} value is sent unescaped) would shift every later segment
 			// into the catch-all: it is exercised, and recorded, on the routes without one
@@ -255,11 +267,12 @@ func hasCatchAll(m *spec.Method) bool {
 }
 
 // catchAllValue keeps the slashes of a drawn path value (they are path separators the caller put there) and
-// removes what makes a URL ambiguous rather than a value different: empty, "." and ".." segments.
+// removes what makes a URL ambiguous rather than a value different: "." and ".." segments. Empty segments (a value
+// that starts or ends with '/', or has "//" inside) are part of the value: the wildcard takes the rest of the path as it is.
 func catchAllValue(v string) string {
 	segs := strings.Split(v, "/")
 	for i, sg := range segs {
-		if sg == "" || sg == "." || sg == ".." {
+		if sg == "." || sg == ".." {
 			segs[i] = "x" + sg
 		}
 	}
@@ -1925,6 +1938,16 @@ func judgeContract(o *engine.Outcome, w *world, d *spec.Design, design string, s
 	}
 	if len(gen.Effective(d, s, m)) > 0 {
 		o.Features["c14_secured_method"]++
+	}
+	if obj, ok := payload.(map[string]any); ok && m.Payload != nil {
+		for _, f := range d.Resolve(m.Payload.Type).Fields {
+			if sv, isStr := obj[f.Name].(string); isStr && isCatchAll(m, f.Name) && (strings.HasPrefix(sv, "/") || strings.HasSuffix(sv, "/") || strings.Contains(sv, "//")) {
+				// OpenAPI has no rest-of-path parameter: goa documents {*name} as an ordinary path parameter, and
+				// the validator's router hands it an empty value when the rest of the path has empty segments
+				o.Features["c14_skipped_catch_all_with_empty_segment"]++
+				return
+			}
+		}
 	}
 	docErr, route, params, req, routed := c.docVerdictRequest(ex)
 	if docErr != nil && strings.Contains(docErr.Error(), "value out of range") {
